@@ -188,7 +188,7 @@ def run(ck):
         rp = json.load(open(ck.replay))
         cases = [rp["case"]] if "case" in rp else []
     else:
-        n = 4000 if ck.quick else 200000
+        n = 16000 if ck.quick else 200000
         cases = []
         corpus = os.path.join(os.path.dirname(os.path.dirname(os.path.dirname(__file__))), "corpus", "c13.txt")
         if os.path.exists(corpus):
